@@ -1,3 +1,6 @@
 import KestrelProps.C01
 import KestrelProps.C18
 import KestrelProps.C19
+import KestrelProps.C15
+import KestrelProps.C17pk
+import KestrelProps.C09
